@@ -24,6 +24,7 @@ type Clause struct {
 
 type LoopSpec struct {
 	Ordinal    int
+	Assumes    []*Clause // instances of definitional axioms, assumed at the loop header (listed as assumptions)
 	Invariants []*Clause
 	Unroll     int
 }
@@ -316,6 +317,12 @@ func (cs *Contracts) loadContractFile(path, pkgPath string) error {
 					return fail("%v", err)
 				}
 				ls.Invariants = append(ls.Invariants, &Clause{Kind: "invariant", Src: body, E: e, File: l.file, Line: l.line})
+			case "assume":
+				e, err := parseExpr(body)
+				if err != nil {
+					return fail("%v", err)
+				}
+				ls.Assumes = append(ls.Assumes, &Clause{Kind: "assume", Src: body, E: e, File: l.file, Line: l.line})
 			case "unroll":
 				fmt.Sscanf(body, "%d", &ls.Unroll)
 			default:
